@@ -224,8 +224,16 @@ class C20(CheckBase):
             if fault_run:
                 k = rng.random()
                 if k < 0.15:      # duplicate delivery (maybe by another client thread, maybe concurrently)
-                    ops.append({'id': oid, 'req': r['rid'], 'client': rng.randrange(T), 'abort': None, 'order': rng.random(), 'dup': True})
+                    first = ops[-1]
+                    ops.append({'id': oid, 'req': r['rid'], 'client': rng.randrange(T), 'abort': None,
+                                'order': first['order'] + rng.uniform(-0.02, 0.05), 'dup': True})
                     oid += 1
+                    if rng.random() < 0.4:
+                        # ... while the first delivery is aborted part-way (client gave up), then retried
+                        first['abort'] = round(rng.random(), 4)
+                        ops.append({'id': oid, 'req': r['rid'], 'client': first['client'], 'abort': None,
+                                    'order': first['order'] + rng.random() * 0.3, 'retry': True})
+                        oid += 1
                 elif k < 0.3:     # client aborts inside the handler, then retries
                     ops[-1]['abort'] = round(rng.random(), 4)
                     ops.append({'id': oid, 'req': r['rid'], 'client': ops[-1]['client'], 'abort': None, 'order': ops[-1]['order'] + rng.random() * 0.3,
@@ -358,7 +366,9 @@ class C20(CheckBase):
         judged = [0]
         clients = [self.app.test_client() for _ in range(T)]
         rnd = random.Random(trace.get('shuffle_seed', 0))
-        urls = dict((o['id'], self._url(reqs[o['req']], rnd)) for o in ops)
+        # a duplicate / retry is a retransmission: byte-identical URL per request, not per delivery
+        url_of_req = dict((rid, self._url(reqs[rid], rnd)) for rid in sorted(reqs))
+        urls = dict((o['id'], url_of_req[o['req']]) for o in ops)
 
         def deliver(tid, o):
             r = reqs[o['req']]
